@@ -32,6 +32,8 @@ class E2Session:
             rec['model'] = {k: v for k, v in list(vals.items())[:12]}
             if on_sat:
                 on_sat(name, vals, rec)
+            elif getattr(self, 'quiet_sat', False):
+                pass
             else:
                 self.run.inconclusive.append(f'{name}: sat (counterexample {rec["model"]}) but no replay available')
         if q.verdict == 'unknown' and core:
